@@ -64,6 +64,12 @@ const (
 	// Valid) and bound it to a pod, the lagging reconcile unassigns the address of a
 	// live pod in the cloud.
 	c03lKnownStaleUnassign = "C03-stale-view-unassigns-revived-address"
+	// Same root (a reconcile on a lagging view makes its cloud calls before its write is
+	// refused), other trigger: LingJun node, the lagging view predates the record of the
+	// interface, a full sync is due and the cloud reports a bound address in a
+	// transitional status: the interface looks new, the address is recorded Deleting and
+	// unassigned in the cloud while the stored record has it bound to a pod.
+	c03lKnownStaleTransitional = "C03-stale-view-unassigns-transitional-address"
 )
 
 func init() {
@@ -83,7 +89,9 @@ type c03lLegacy struct {
 }
 
 type c03lOp struct {
-	// create add delobj phase del flush gc syncdel reconcile restartd restartc, and
+	// create add delobj phase del flush gc syncdel reconcile restartd restartc,
+	// ipstatus: (LingJun) the cloud reports a transitional status for an address bound to
+	// pod P in its next A listings - the address itself stays assigned; and
 	// flushadd: the reporter tick (syncNodeRuntime) runs, a CNI ADD for pod P completes
 	// while the tick's write to the API server is in flight, and that write fails
 	K      string `json:"k"`
@@ -95,6 +103,7 @@ type c03lOp struct {
 
 type c03lScenario struct {
 	V6        bool         `json:"v6"`                // dual stack
+	EFLO      bool         `json:"eflo,omitempty"`    // LingJun node: EFLO backend (no attach/detach, addresses have a name and a status of their own)
 	V6Only    bool         `json:"v6_only,omitempty"` // IPv6-only pool: pods get IPv6 only, every interface still has its primary IPv4
 	MaxPool   int          `json:"max_pool"`
 	MinPool   int          `json:"min_pool"`
@@ -120,6 +129,7 @@ func c03lGen(t *rapid.T) c03lScenario {
 	if !s.V6 && rapid.IntRange(0, 4).Draw(t, "v6only") == 0 {
 		s.V6Only = true
 	}
+	s.EFLO = rapid.IntRange(0, 4).Draw(t, "eflo") == 0
 	nPods := rapid.IntRange(1, vt.Scale(4, 6)).Draw(t, "nPods")
 	nLegacy := rapid.SampledFrom([]int{0, 0, 0, 1, 2}).Draw(t, "nLegacy")
 	for i := 0; i < nLegacy && i < nPods; i++ {
@@ -135,7 +145,7 @@ func c03lGen(t *rapid.T) c03lScenario {
 	// next step of some pod (create, get bound, ADD, DEL or object deletion in either
 	// order, flush, reconcile), one third is an arbitrary operation on an arbitrary pod.
 	// Every operation stays possible in every state; run() never consults this model.
-	type pm struct{ obj, bound, sandbox, ever, delPending, reported, housekept bool }
+	type pm struct{ obj, bound, sandbox, ever, delPending, reported, housekept, early bool }
 	model := make([]pm, nPods)
 	for _, lg := range s.Legacy {
 		if lg.Takeover {
@@ -153,11 +163,16 @@ func c03lGen(t *rapid.T) c03lScenario {
 		case !m.obj && m.delPending:
 			return []string{"flush", "flush", "reconcile"}
 		case !m.obj && (m.reported || m.ever):
-			return []string{"reconcile", "reconcile", "reconcile", "gc", "syncdel", "create"}
+			return []string{"reconcile", "reconcile", "reconcile", "gc", "syncdel", "create", "create"}
 		case !m.obj:
 			return []string{"create"}
+		case m.early:
+			// an ADD was tried before the control plane saw the pod: the object goes
+			return []string{"delobj", "delobj", "reconcile"}
 		case !m.bound:
-			return []string{"reconcile"}
+			// normally the control plane binds first; kubelet may also be faster (an ADD
+			// before the reconcile waits - or is served from a record that is not the pod's)
+			return []string{"reconcile", "reconcile", "add"}
 		case m.delPending:
 			return []string{"flush", "flush", "flushadd", "flushadd", "delobj"}
 		case m.housekept && !m.sandbox:
@@ -173,6 +188,9 @@ func c03lGen(t *rapid.T) c03lScenario {
 		}
 	}
 	anyPod := []string{"create", "add", "add", "del", "del", "delobj", "phase", "flushadd"}
+	if s.EFLO {
+		anyPod = append(anyPod, "ipstatus", "ipstatus")
+	}
 	anyGlobal := []string{"reconcile", "reconcile", "reconcile", "reconcile", "flush", "flush", "gc", "gc", "syncdel", "restartd", "restartc"}
 	wantFull := 0
 	n := rapid.IntRange(4, vt.Scale(30, 50)).Draw(t, "nOps")
@@ -195,6 +213,8 @@ func c03lGen(t *rapid.T) c03lScenario {
 		case "add":
 			if m.obj && m.bound {
 				m.sandbox, m.ever, m.reported = true, true, false
+			} else if m.obj {
+				m.early = true
 			}
 		case "syncdel":
 			if m.obj {
@@ -212,6 +232,7 @@ func c03lGen(t *rapid.T) c03lScenario {
 			}
 			m.sandbox = false
 		case "delobj":
+			m.early = false
 			if m.housekept {
 				m.reported = true // reported earlier: the natural next step is a reconcile
 			}
@@ -229,7 +250,7 @@ func c03lGen(t *rapid.T) c03lScenario {
 		case "reconcile":
 			for j := range model {
 				if model[j].obj {
-					model[j].bound = true
+					model[j].bound, model[j].early = true, false
 				} else if model[j].reported {
 					model[j].reported, model[j].ever = false, false
 				}
@@ -240,6 +261,9 @@ func c03lGen(t *rapid.T) c03lScenario {
 			op.P = 0
 		}
 		switch op.K {
+		case "ipstatus":
+			op.A = rapid.IntRange(1, 3).Draw(t, "listings")
+			wantFull = 2
 		case "add", "flushadd":
 			op.A = rapid.IntRange(0, 1).Draw(t, "reportIP")
 		case "phase":
@@ -379,6 +403,7 @@ type c03lWorld struct {
 	// still in NodeRuntime when the pod object finally goes is the agent's business.
 	everReported map[string]bool
 	abandon      bool            // a listed finding fired: stop judging this history
+	transitional map[string]bool // addresses the cloud has reported in a transitional status
 	revived      map[string]bool // addresses a replayed assign answer set back from Deleting to Valid
 	conflict     bool
 
@@ -396,7 +421,7 @@ func c03lPodID(k int) string   { return "ns/" + c03lPodName(k) }
 
 func c03lNewWorld(c *vt.Ctx, s c03lScenario) *c03lWorld {
 	w := &c03lWorld{c: c, s: s, delIssued: map[string]bool{}, verified: map[string]bool{},
-		owners: map[string]c03cloud.Owner{}, takeover: map[string]bool{}, reportStep: map[string]int{}, everReported: map[string]bool{}, revived: map[string]bool{}}
+		owners: map[string]c03cloud.Owner{}, takeover: map[string]bool{}, reportStep: map[string]int{}, everReported: map[string]bool{}, revived: map[string]bool{}, transitional: map[string]bool{}}
 	w.vnow = time.Now().Add(-2 * time.Hour).Truncate(time.Second)
 	w.ctx = aliyunClient.SetBackendAPI(context.Background(), aliyunClient.BackendAPIECS)
 	w.cloud = c03cloud.New("i-1", "vsw-1", "zone-a")
@@ -406,6 +431,7 @@ func c03lNewWorld(c *vt.Ctx, s c03lScenario) *c03lWorld {
 	// runs. With a MAC no link has, the GC takes its "interface no longer attached"
 	// branch instead.
 	w.cloud.NoMAC = !s.RealMAC
+	w.cloud.EFLO = s.EFLO
 	for i := 0; i < 6; i++ {
 		w.slots = append(w.slots, &c03lSlot{})
 	}
@@ -480,7 +506,7 @@ func c03lNewWorld(c *vt.Ctx, s c03lScenario) *c03lWorld {
 	k8sNode := &corev1.Node{ObjectMeta: metav1.ObjectMeta{Name: c03lNode, UID: "node-uid"}}
 	w.must(w.cl.Create(w.ctx, k8sNode), "create node")
 	cr := &networkv1beta1.Node{
-		ObjectMeta: metav1.ObjectMeta{Name: c03lNode},
+		ObjectMeta: metav1.ObjectMeta{Name: c03lNode, Labels: c03lNodeLabels(s)},
 		Spec: networkv1beta1.NodeSpec{
 			NodeMetadata: networkv1beta1.NodeMetadata{RegionID: "r", InstanceType: "t", InstanceID: "i-1", ZoneID: "zone-a"},
 			NodeCap:      networkv1beta1.NodeCap{Adapters: 4, TotalAdapters: 4, IPv4PerAdapter: s.PerENI, IPv6PerAdapter: s.PerENI},
@@ -611,16 +637,47 @@ func (w *c03lWorld) duringWrite() {
 	}
 }
 
-// quiesce waits until the goroutines a CNI request left behind have finished (the
-// allocator replies to the ADD first and cancels the pod's pending teardown record
-// afterwards, from its own goroutine): the next step must not overtake that.
-func (w *c03lWorld) quiesce(baseline int) {
-	deadline := time.Now().Add(20 * time.Second)
-	for goruntime.NumGoroutine() > baseline {
-		if time.Now().After(deadline) {
-			w.c.Inconclusive("goroutines of a CNI request did not finish")
+// afterADD is the barrier the harness owns after a CNI ADD has returned. The allocator
+// replies to the ADD first and withdraws the pod's pending teardown record afterwards,
+// from its own goroutine (which may still be parked on the allocator's lock if the
+// reporter tick was in flight). In the real system the next tick is seconds away; here
+// the next step follows within microseconds, so the harness waits until that withdrawal
+// has taken effect: the pod's uid is no longer among the pending records. This is a
+// condition on the agent's state, not on timing, and is polled by count (every poll
+// yields the processor), so a stalled process does not use the budget up. On a tree
+// where the record is never withdrawn the budget runs out and the history simply goes
+// on - the agent-side clause then judges what gets reported.
+//
+// (An earlier version waited for runtime.NumGoroutine() to fall back to the count taken
+// at the start of the step. That count can be inflated by a goroutine of an earlier
+// step that is still on its way out - wait.Group workers of a reconcile, or an earlier
+// allocator goroutine - so the barrier could open while the withdrawal was still
+// pending, and a following flush then published a `deleted` the unchanged agent was
+// about to cancel: a schedule the harness produced, not one the system has.)
+func (w *c03lWorld) afterADD(uid string, baseline int) {
+	if uid == "" {
+		return
+	}
+	pending := func() bool {
+		for _, u := range w.crd.C03PendingDeleted() {
+			if u == uid {
+				return true
+			}
 		}
-		time.Sleep(50 * time.Microsecond)
+		return false
+	}
+	for n := 0; pending(); n++ {
+		if n >= 20000 {
+			w.c.Label("add:pending-record-not-withdrawn")
+			break
+		}
+		goruntime.Gosched()
+		time.Sleep(20 * time.Microsecond)
+	}
+	// best effort on top: let the request's goroutines finish (never decides anything)
+	for n := 0; n < 2000 && goruntime.NumGoroutine() > baseline; n++ {
+		goruntime.Gosched()
+		time.Sleep(20 * time.Microsecond)
 	}
 }
 
@@ -634,6 +691,43 @@ func (w *c03lWorld) sandboxUp(uid string) *c03lSandbox {
 		}
 	}
 	return nil
+}
+
+func c03lNodeLabels(s c03lScenario) map[string]string {
+	if s.EFLO {
+		return map[string]string{terwayTypes.LinJunNodeLabelKey: "true"}
+	}
+	return nil
+}
+
+// opIPStatus: on a LingJun node the cloud reports an address that is bound to pod P with
+// a transitional status (not "Available") in its next listings. Nothing is removed in
+// the cloud; this is what a full sync sees while the address is being (re)configured.
+func (w *c03lWorld) opIPStatus(op c03lOp) {
+	if !w.s.EFLO {
+		w.c.Trace("  (not a LingJun node)")
+		return
+	}
+	cr := w.nodeCR()
+	var cand []string
+	for _, e := range cr.Status.NetworkInterfaces {
+		for _, m := range []map[string]*networkv1beta1.IP{e.IPv4, e.IPv6} {
+			for k, ip := range m {
+				if ip.PodID == c03lPodID(op.P) && !ip.Primary {
+					cand = append(cand, k)
+				}
+			}
+		}
+	}
+	sort.Strings(cand)
+	if len(cand) == 0 {
+		w.c.Trace("  (pod has no address)")
+		return
+	}
+	w.cloud.SetIPStatus(cand[0], "Executing", op.A)
+	w.transitional[cand[0]] = true
+	w.c.Trace("    cloud reports %s as Executing in its next %d listings", cand[0], op.A)
+	w.c.Label("cloud:bound-address-in-transitional-status")
 }
 
 func (s c03lScenario) v4() bool { return !s.V6Only }
@@ -873,12 +967,14 @@ func (w *c03lWorld) opPhase(op c03lOp) {
 	}
 }
 
-func (w *c03lWorld) opAdd(op c03lOp) {
+// opAdd returns the uid of the pod the ADD was issued for ("" if none was issued).
+func (w *c03lWorld) opAdd(op c03lOp) (issued string) {
 	sl := w.slots[op.P]
 	if sl.uid == "" || sl.exited {
 		w.c.Trace("  (kubelet starts no sandbox: no live pod object)")
-		return
+		return ""
 	}
+	issued = sl.uid
 	// kubelet stops the previous sandbox of THIS pod before it creates a new one (its
 	// DEL may come late or twice); a sandbox of an earlier pod of the same name lives
 	// on until its own DEL
@@ -930,6 +1026,7 @@ func (w *c03lWorld) opAdd(op c03lOp) {
 		}
 		w.must(w.cl.Status().Update(w.ctx, pod), "pod ip")
 	}
+	return issued
 }
 
 func (w *c03lWorld) opDel(op c03lOp) {
@@ -989,12 +1086,12 @@ func (w *c03lWorld) opFlush(op c03lOp) {
 // CNI ADD for pod P completes (kubelet re-creating the sandbox); then the write fails.
 // The records the tick wanted to report stay pending, except that of the pod that was
 // just given a sandbox again: its ADD cancelled it and it must never be reported.
-func (w *c03lWorld) opFlushAdd(op c03lOp) {
+func (w *c03lWorld) opFlushAdd(op c03lOp) (issued string) {
 	ran := false
 	w.inWrite = func() {
 		ran = true
 		w.c.Trace("    (tick's write in flight)")
-		w.opAdd(op)
+		issued = w.opAdd(op)
 	}
 	w.failRuntime = true
 	err := w.crd.C03SyncNodeRuntime(w.ctx)
@@ -1003,12 +1100,13 @@ func (w *c03lWorld) opFlushAdd(op c03lOp) {
 	if !ran {
 		// nothing was pending, the tick made no write: a plain ADD then
 		w.c.Trace("    (tick had nothing to write)")
-		w.opAdd(op)
+		issued = w.opAdd(op)
 		w.c.Label("flushadd:no-write")
-		return
+		return issued
 	}
 	w.c.Trace("    tick: err=%v", err)
 	w.c.Label("flushadd:add-inside-failed-write")
+	return issued
 }
 
 func (w *c03lWorld) opSyncDel(op c03lOp) {
@@ -1171,6 +1269,11 @@ func (w *c03lWorld) opReconcile(i int, op c03lOp) {
 			w.abandon = true
 			continue
 		}
+		if !ok && stale && w.transitional[tch.IP] && strings.Contains(tch.What, "named in cloud call") && vt.Known(c03lKnownStaleTransitional) && !w.s.Witness {
+			w.c.Label("known:" + c03lKnownStaleTransitional)
+			w.abandon = true
+			continue
+		}
 		if !ok {
 			w.c.Fatalf("step %d (reconcile): %s -- but %s. pods at start: %v; runtime at start: %s",
 				i, tch, why, pods, c03lShowRT(rt, w.vnow))
@@ -1260,7 +1363,11 @@ func (w *c03lWorld) opReconcile(i int, op c03lOp) {
 // on the GC's API re-check ("verified no longer exist") is accepted by the statement
 // whatever the sandbox does, so it is not flagged.
 func (w *c03lWorld) strict(i int, tch c03cloud.Touch) {
-	if tch.PodUID == "" || w.verified[tch.PodUID] {
+	if tch.PodUID == "" {
+		return
+	}
+	w.otherInstance(i, tch)
+	if w.verified[tch.PodUID] {
 		return
 	}
 	for k, sl := range w.slots {
@@ -1293,6 +1400,37 @@ func (w *c03lWorld) strict(i int, tch c03cloud.Touch) {
 	}
 }
 
+// otherInstance: the harness's ground truth of who was given a sandbox on the address.
+// The record says the address belongs to pod instance U (and U's teardown is reported,
+// or the gate would not have opened), but the agent has served a LATER instance of the
+// same pod name from that record: the latest pod of that name has a sandbox up on this
+// very address, no DEL was processed for it and no GC verified it gone. The address is
+// reclaimed before the teardown of the pod that really holds it was reported. (An
+// earlier instance whose sandbox is still up while the record already names its
+// successor is not judged here: the control plane re-binds by name on purpose.)
+func (w *c03lWorld) otherInstance(i int, tch c03cloud.Touch) {
+	for k, sl := range w.slots {
+		if c03lPodID(k) != tch.PodID || sl.inc == 0 {
+			continue
+		}
+		latest := fmt.Sprintf("u%d-%d", k, sl.inc)
+		if latest == tch.PodUID || w.verified[latest] {
+			continue
+		}
+		for _, b := range sl.boxes {
+			if b.uid != latest || !b.ok || !b.up {
+				continue
+			}
+			for _, ip := range b.ips {
+				if ip == tch.IP {
+					w.c.Fatalf("step %d (reconcile): %s -- the record names pod instance %s, but the agent gave this address to the sandbox %s of the later instance %s of that pod (ADD in step %d); that sandbox is up, no DEL was processed for it and no GC verified the pod gone",
+						i, tch, tch.PodUID, b.cid, latest, b.step)
+				}
+			}
+		}
+	}
+}
+
 func c03lRun(c *vt.Ctx, s c03lScenario) {
 	ctlnode.VerifSleepDivisor = 1000000
 	backoff.OverrideBackoff(map[string]wait.Backoff{
@@ -1321,15 +1459,15 @@ func c03lRun(c *vt.Ctx, s c03lScenario) {
 		case "phase":
 			w.opPhase(op)
 		case "add":
-			w.opAdd(op)
-			w.quiesce(goroutines)
+			w.afterADD(w.opAdd(op), goroutines)
 		case "del":
 			w.opDel(op)
 		case "flush":
 			w.opFlush(op)
 		case "flushadd":
-			w.opFlushAdd(op)
-			w.quiesce(goroutines)
+			w.afterADD(w.opFlushAdd(op), goroutines)
+		case "ipstatus":
+			w.opIPStatus(op)
 		case "syncdel":
 			w.opSyncDel(op)
 		case "gc":
@@ -1424,6 +1562,19 @@ func TestVerifC03KnownWitnessStaleUnassign(t *testing.T) {
 	}}
 	vt.Witness(t, "C03", c03lKnownStaleUnassign,
 		"a replayed assign answer revives an address the record had marked Deleting and it is bound to a pod; a reconcile on the Node CR as it was before that write unassigns the address in the cloud (its own status write is then refused, the cloud call is not undone) while the pod exists",
+		s, c03lRun)
+}
+
+// Deterministic witness of the candidate finding C03-stale-view-unassigns-transitional-address.
+func TestVerifC03KnownWitnessStaleTransitional(t *testing.T) {
+	s := c03lScenario{V6: true, EFLO: true, PerENI: 2, Witness: true, Ops: []c03lOp{
+		{K: "create", P: 0}, {K: "reconcile"}, // interface created, p0 bound (v4 + v6)
+		{K: "add", P: 0},
+		{K: "ipstatus", P: 0, A: 1}, // the cloud lists p0's IPv6 address as Executing once
+		{K: "reconcile", A: 10},     // full sync on the view before the first write (no interface yet)
+	}}
+	vt.Witness(t, "C03", c03lKnownStaleTransitional,
+		"LingJun node: a full sync that runs on the Node CR as it was before the controller's last write (the interface is not in that view) sees a bound address in a transitional status, records it Deleting as for a new interface and unassigns it in the cloud; its status write is refused, the cloud call stays, the pod exists",
 		s, c03lRun)
 }
 
